@@ -1,0 +1,6 @@
+//go:build !verif
+// +build !verif
+
+package stackinit
+
+func verifSkipInit() bool { return false }
